@@ -33,6 +33,9 @@ Monitor == /\ PathOK(R.cfe, Reply) \/ Flag("check_for_errors:" \o Want)
            /\ PathOK(R.proxy, Result) \/ Flag("ServerProxy:" \o Want)
            /\ PathOK(R.mcindex, Result) \/ Flag("MultiCall[i]:" \o Want)
            /\ PathOK(R.mciter, Result) \/ Flag("MultiCall-iter:" \o Want)
+           /\ PathOK(R.mcindex2, Result) \/ Flag("MultiCall[i]-again:" \o Want)
+           /\ PathOK(R.mciter2, Result) \/ Flag("MultiCall-iter-again:" \o Want)
+           /\ PathOK(R.mcidxiter, Result) \/ Flag("MultiCall[i]-after-iter:" \o Want)
 \* conformance of the concretiser with the abstract class it aimed at (DRIFT of the harness, not of the code)
 AimOK == Want = R.expect \/ PrintT(<<"DRIFT", i, "concretiser-aim">>)
 =============================================================================
